@@ -126,7 +126,7 @@ class ExprMixin:
         return Val(py=("modattr", f"{mi.relpath}:{name}"))
 
     SPEC_FUNCS = {"old", "implies", "iff", "forall", "exists", "result", "is_exc", "typeof_is", "str_eq", "fresh_ref",
-                  "unchanged", "contains", "same_except", "is_fresh"}
+                  "unchanged", "contains", "same_except", "is_fresh", "forall_val", "is_empty"}
 
     # ------------------------------------------------------------ attribute access
     def ev_Attribute(self, node, st):
@@ -153,7 +153,7 @@ class ExprMixin:
                 sub = front.module_relpath(mod + "." + attr)
                 if sub is not None or mod in ("os",) and attr == "path":
                     return [Out("val", st, Val(py=("module", mod + "." + attr)))]
-                return [Out("val", st, Val(py=("modattr", f"{mod}.{attr}")))]
+                return [Out("val", st, self.modattr_val(st, f"{mod}.{attr}"))]
             if kind == "modattr":
                 return [Out("val", st, Val(py=("modattr", f"{base.py[1]}.{attr}")))]
             if kind == "class":
@@ -233,6 +233,16 @@ class ExprMixin:
         if base.z is None:
             raise Unsupported(f"attribute {attr} on static value", node)
         return [Out("val", st, self.typed(st, st.hread(attr, V.r(base.z)), fth))]
+
+    def modattr_val(self, st: State, name: str) -> Val:
+        """module-level objects that are given a type in $fields (e.g. sys.stdin) are global cells"""
+        from .spec import REGISTRY
+
+        g = REGISTRY.get("$fields")
+        t = g.types.get(name) if g else None
+        if t:
+            return self.typed(st, st.hread(f"$static.{name}", z3.IntVal(0)), parse_hint(t))
+        return Val(py=("modattr", name))
 
     def field_is_instance_written(self, ci, attr) -> bool:
         for c in front.class_mro(ci):
